@@ -1068,7 +1068,13 @@ def b_isinstance(ex, v, cls):
         return isinstance(v, ArrV)
     if name in ("float", "int"):
         if isinstance(v, T):
-            return (v.sort == tm.R) if name == "float" else (v.sort == tm.I)
+            same = (v.sort == tm.R) if name == "float" else (v.sort == tm.I)
+            if same and v.op == "var" and ex.trail is not None:
+                # an ARGUMENT of the code under contract: a whole number may arrive as a python int or as numpy.int64 (an element of
+                # np.arange is no `int`), a real as a python float / numpy.float64 (a `float`) or numpy.float32 (not one): both
+                # answers are explored.  One boolean per (argument, class), shared by every test of it on the path.
+                return ex.decide(tm.var(f"is_python_{name}({v.args[0]})", tm.B))
+            return same
         return False
     if name in ("list", "tuple"):
         return isinstance(v, list if name == "list" else tuple)
